@@ -723,6 +723,16 @@ impl Program {
         debug!("wire decls: {:?}", wires);
         debug!("assignments: {:?}", assignments);
 
+        for (name, span) in &assign_spans {
+            if constants_raw.contains_key(name) {
+                errors.push(Error::AssignedConstant {
+                    name: String::from(*name),
+                    span: *span,
+                    const_span: *wire_decl_spans.get(name).unwrap(),
+                });
+            }
+        }
+
         for (_, expr) in &constants_raw {
             for in_name in expr.referenced_wires() {
                 let is_constant = constants_raw.contains_key(&in_name);
